@@ -383,7 +383,7 @@ func attSession(d consts.ActiveSafetyType, name string, data []byte, chunk int) 
 func init() {
 	vc.Register(&vc.Check{
 		ID: "C10", Level: "model_checking", SingleProc: true,
-		Rule: "JT808 server: a well-behaved session V (register, auth, heartbeat, location, each awaited), a hostile client H and a third client opened after H, on the real server with README-pattern handlers that Parse and render every body. H plays every single piece of a ~900-piece menu (valid frames with lying package fields, every supported terminal and platform ID x both versions with empty / 1-byte / truncated / corrupted / extended bodies, the boundary bodies C03 found, half frames, bare delimiters, 2 KiB without delimiter, unknown IDs) with close or reset before, between and after its chunks, under ALL schedules with <=1 deviation (thorough 2), every ordered pair from a 40-piece sub-menu under the run-to-block schedule (thorough: with 1 deviation), every ordered pair of sub-package frames of one message ID whose total/number fields disagree (totals and numbers from {1,2,5,65535} / {1,2,4,65535}) through the server, and EVERY sequence of 1..2 (one ID: 1..3; thorough: 1..3 for both) sub-package frames over 2 IDs x totals {0,1,2,3,5,65535} x numbers {0..6,65535} on the real reassembler, " +
+		Rule: "JT808 server: a well-behaved session V (register, auth, heartbeat, location, each awaited), a hostile client H and a third client opened after H, on the real server with README-pattern handlers that Parse and render every body. H plays every single piece of a ~900-piece menu (valid frames with lying package fields, every supported terminal and platform ID x both versions with empty / 1-byte / truncated / corrupted / extended bodies, the boundary bodies C03 found, half frames, bare delimiters, 2 KiB without delimiter, unknown IDs) with close or reset before, between and after its chunks, under ALL schedules with <=1 deviation (thorough: then again with 2 deviations and close after the piece, as far as the time cap allows - counter pieces_completed_at_bound_2), every ordered pair from a 40-piece sub-menu under the run-to-block schedule (thorough: with 1 deviation), every ordered pair of sub-package frames of one message ID whose total/number fields disagree (totals and numbers from {1,2,5,65535} / {1,2,4,65535}) through the server, and EVERY sequence of 1..2 (one ID: 1..3; thorough: 1..3 for both) sub-package frames over 2 IDs x totals {0,1,2,3,5,65535} x numbers {0..6,65535} on the real reassembler, " +
 			"plus H presenting V's key. Attachment server: connection.run on scripted connections: every prefix (EOF and reset at every chunk boundary, including connect-and-close) of well-formed sessions of all five dialects, control frames and chunk headers with adversarial names / offsets / lengths, default and custom file handler. Oracle: no panic anywhere, V receives exactly its reference replies, the later client is served. Non-trivial = H sends at least one chunk",
 		Assumptions: []string{"memory exhaustion by an endless delimiter-free stream is a resource bound, not a reachable-state property, and is not claimed"},
 		Run:         c10Run,
@@ -420,10 +420,7 @@ func init() {
 func c10Run(ctx *vc.Ctx, rep *vc.Report) {
 	pieces := hostPieces(hostilePhone)
 	names := sortedKeys(pieces)
-	bound1 := 1
-	if ctx.Thorough() {
-		bound1 = 2
-	}
+	bound1 := 1 // every family runs at this bound first; the thorough tier then repeats the single pieces at bound 2 (last: it is the part that may hit the time cap)
 	var idx int64
 	runHost := func(scn hostScn, bound int) {
 		if only := os.Getenv("VERIF_ONLY"); only != "" && !strings.Contains(scn.Name, only) {
@@ -444,6 +441,9 @@ func c10Run(ctx *vc.Ctx, rep *vc.Report) {
 			rep.Sample(map[string]any{"hostile_script": scn})
 		}
 	}
+	// attachment server and fragment sequences first (cheap, always completed)
+	c10Attachment(ctx, rep, &idx)
+	c10FragSeqs(ctx, rep, &idx)
 	// connect-and-close / reset without a byte
 	for _, reset := range []bool{false, true} {
 		runHost(hostScn{Name: "host:connect-close", CloseAt: 0, Reset: reset}, bound1)
@@ -504,12 +504,24 @@ func c10Run(ctx *vc.Ctx, rep *vc.Report) {
 			runHost(hostScn{Name: "host:fragx:" + a + "+" + b, Pieces: []string{fx[a], fx[b]}, CloseAt: 2}, pairBound)
 		}
 	}
-	// ... and every sequence of 1..3 such frames (two message IDs, totals {0,1,2,3,5,65535}, numbers {0..6,65535}) on the real reassembler
-	c10FragSeqs(ctx, rep, &idx)
 	rep.Count("hostile_pieces", int64(len(names)))
 	rep.Count("pair_menu", int64(len(sub)))
-	// attachment server
-	c10Attachment(ctx, rep, &idx)
+	if ctx.Thorough() {
+		// every single piece again with 2 deviations; a time cap here leaves everything above fully covered
+		for _, n := range names {
+			if ctx.Expired() || rep.TooMany() {
+				rep.Truncated = rep.Truncated || ctx.Expired()
+				break
+			}
+			runHost(hostScn{Name: "host:1:" + n, Pieces: []string{pieces[n]}, CloseAt: 1}, 2)
+			if ctx.Worker == 0 {
+				rep.Count("pieces_completed_at_bound_2", 1)
+			}
+		}
+		if rep.Truncated {
+			rep.Bound = 1 // the bound completed for the WHOLE menu; bound 2 only for the counted prefix of it
+		}
+	}
 }
 
 // fragxPieces: sub-package frames of message 0x0801 for every (total, number) of the given menus.
